@@ -432,6 +432,15 @@ def check_one(ctx, area, spec, all_specs, history, before, dig0, after,
                     % (spec['stage'], history, spec['failure'],
                        [os.path.relpath(x, sd) for x in left[:4]]),
                     dict(detail, left=left, job=spec['job']))
+            touched = sorted(p for p in before if under(p, sd)
+                             and p in after and p not in all_outputs
+                             and dig0.get(p) != dig1.get(p))
+            if touched:
+                ctx.violation(sigbase + '/scratch/modified-foreign',
+                              '%s run (%s) modified files of the scratch '
+                              'directory it did not create: %s'
+                              % (spec['stage'], history, touched[:4]),
+                              dict(detail, touched=touched, job=spec['job']))
             if gone:
                 ctx.violation(sigbase + '/scratch/removed-foreign',
                               '%s run (%s) removed entries of the scratch '
@@ -619,6 +628,12 @@ def history_mapping(ctx, rng, failure, encoding_hint=None, tmp_dir=True,
         def build(r, a):
             return mapping_job(r, a, fail2, 'good', tmp_dir, obsm)
         good = build(rng, area)
+        # results of an "earlier run" at the very output locations: they must
+        # be overwritten, not merged (the log file is appended to by design)
+        for o in good['outputs']:
+            if not o.endswith('_log.txt') and o != \
+                    good['job']['config']['query_path']:
+                pathlib.Path(o).write_text('{"results": "stale"}')
         got = run_specs(ctx, area, [good], hist + ':success')[0]
         solo = solo_result(ctx, state, build, 'mapping')
         compare_with_solo(ctx, good, hist, got, solo)
